@@ -161,3 +161,28 @@ Theorem C09_source_inbound_pipeline_never_panics :
         (src_decrypt_all inflate read_from_bytes rt_ok rsa_oaep rsa_pkcs1 gcm_open cbc_decrypt parse_cert cfg kc venc now) cfg now enc = PVal r.
 Proof. exact source_inbound_pipeline_never_panics. Qed.
 Print Assumptions C09_source_inbound_pipeline_never_panics.
+
+(* The byte -> token -> tree step is in the model (XmlTok.v: xml.Decoder.RawToken as etree configures it, etree's readFrom).
+   [raw_tokens] and [read_tree] are total functions into [res], so "Ok or Err for every byte string" holds by typing (the
+   first two conjuncts say no more than that, except that the tokenizer's only error is [syntax_error]).  What is NOT by
+   typing: the tokenizer uses no fuel -- it is a structural recursion with exactly one [step] per input byte -- and its
+   output is bounded: at most 2|s|+1 tokens, read to the end (etree) or lazily (xml.Unmarshal). *)
+From V Require Import XmlTok P_XmlTok.
+Theorem C09_tokenizer_total : forall s : string,
+  ((exists l, raw_tokens s = Ok l) \/ raw_tokens s = Err syntax_error) /\
+  ((exists n, read_tree s = Ok n) \/ (exists e, read_tree s = Err e)) /\
+  (forall l, raw_tokens s = Ok l -> (List.length l <= 2 * String.length s + 1)%nat) /\
+  (forall cs, (List.length (token_prefix cs s) <= 2 * String.length s + 1)%nat).
+Proof. exact tokenizer_total. Qed.
+Print Assumptions C09_tokenizer_total.
+
+(* one step per byte, never more than two tokens per step, at most one at the end of the input *)
+Theorem C09_tokenizer_one_step_per_byte : forall cs s c r,
+  XmlTok.run cs s (String c r) =
+  match XmlTok.step cs s c with
+  | Go s' => XmlTok.run cs s' r
+  | Emit t s' => emit t (XmlTok.run cs s' r)
+  | Fail => ([], true)
+  end.
+Proof. exact run_cons. Qed.
+Print Assumptions C09_tokenizer_one_step_per_byte.
